@@ -69,11 +69,12 @@ def toggle(W, cfg):
 
 def same_stats(W, a, b, label):
     W.require(len(a) == len(b), label, 'different number of statistics')
+    from .sampler_steps import require_same
     for (na, va), (nb, vb) in zip(a, b):
-        if W.symbolic:
-            W.require(na == nb and ident(W, va, vb), label, na)
+        if na != nb:
+            W.require(False, label, '%s vs %s' % (na, nb))
         else:
-            W.require(na == nb and W.same(va, vb), label, na)
+            require_same(W, va, vb, label, na)
 
 
 def check_view(W, S):
